@@ -64,6 +64,8 @@ type Machine struct {
 	ExitCode   *int
 	Ghost      map[string]value
 	Thorough   bool
+	fresh      int
+	Approx     int // number of over-approximated operations on this path
 }
 
 func (m *Machine) uniq(name string) string {
